@@ -211,6 +211,11 @@ def run_check(tier, seed):
                 # request flattening / merging that only runs with this hint), with larger strided collective writes
                 p = apigen.gen_rw_program(rng, 'c01_%d.nc' % k, nprocs, hints='nc_num_aggrs_per_node=%d' % rng.range(1, nprocs - 1), big=True)
                 p.tags.add('intra-node-aggregation')
+            elif k % 5 == 1:
+                # the in-place byte-swap shortcut of the blocking put path (hint forces it for every request size): derived,
+                # non-contiguous buffer types must not take it
+                p = apigen.gen_rw_program(rng, 'c01_%d.nc' % k, nprocs, hints='nc_in_place_swap=enable')
+                p.tags.add('in-place-swap-enabled')
             else:
                 p = apigen.gen_rw_program(rng, 'c01_%d.nc' % k, nprocs)
             text = p.text()
